@@ -339,10 +339,10 @@ func monitorCuckoo(backend, prop string) Monitor {
 			switch {
 			case fpEmpty(x, s.cfg.fpl):
 				return "/empty-fingerprint"
+			case !isPow2(s.cfg.size):
+				return "/size-not-pow2" // listed regime that alone explains a lost entry; checked before the state-corruption regime below
 			case s.badFp:
 				return "/after-empty-fingerprint"
-			case !isPow2(s.cfg.size):
-				return "/size-not-pow2"
 			case s.evicted && s.cfg.bsize > 1:
 				return "/after-eviction-bsize>1"
 			case s.evicted:
